@@ -186,7 +186,7 @@ def check(h, reason):
             if done is None:
                 if S.now - sc_["t"] > bound or reason == "deadlock":
                     V("C12/shutdown-hangs/%s/%s" % (end, ph["pop"]), "runner %d: shutdown() called by %s at t=%.3f never returned (%s)" % (i, sc_.get("by"), sc_["t"], reason))
-            elif done["kind"] == "shutdown-raised" and not failed:
+            elif done["kind"] == "shutdown-raised":  # also next to a failure: shutdown() returns, it does not raise
                 V("C12/shutdown-raised/%s/%s" % (end, done.get("exc")), "runner %d: shutdown() raised %s: %s" % (i, done.get("exc"), done.get("text")))
             elif done["t"] - sc_["t"] > bound:
                 V("C12/shutdown-late/%s" % end, "shutdown() took %.2fs" % (done["t"] - sc_["t"]))
